@@ -84,6 +84,50 @@ def run_crossing(ck, w, seed):
 
 
 
+def run_crossing_two_groups(ck, w, seed):
+    """Two protect entries whose PFS groups DIFFER (a MODP and an elliptic-curve group, two MODP groups of different size ...): each end asks for a CHILD_SA of one entry
+    while the other end's request for the other entry is in flight, in both assignments and every delivery order; then both are rekeyed, crossing again. Each exchange
+    is keyed with g^ir of ITS OWN Diffie-Hellman exchange."""
+    import copy as _copy
+    rng = ck.rng('cross2', w)
+    g1, g2 = [('14', '15'), ('15', '14'), ('14', '19'), ('19', '20'), ('20', '14'), ('21', '19')][w % 6]
+    ca, cb = S.pair_conf(ipsec_proto='ah' if w % 5 == 0 else 'esp', mode='tunnel' if w % 4 == 0 else 'transport', dpd=600, lifetime=3600, b_port=23)
+    for conn in (ca['conn'], cb['conn']):
+        e0 = conn['protect'][0]
+        e0['dh'] = [g1]
+        e1 = _copy.deepcopy(e0)
+        e1.update(index=e0['index'] + 20, dh=[g2])
+        e1['peer_port' if conn is ca['conn'] else 'my_port'] = 24
+        conn['protect'] = [e0, e1]
+    sim = S.Sim(seed + w)
+    a, b = sim.add('A', [S.A4], ca), sim.add('B', [S.B4], cb)
+    sim.case = {'family': 'crossing-two-groups', 'groups': (g1, g2), 'w': w, 'actions': []}
+    km = shadow.KeyMonitor(ck, prefix='crossing-two-groups:')
+    km.attach(sim, S.W.dh_log)
+    if not S.handshake(sim, a, b):
+        ck.count('crossing2.handshake_failed')
+        return
+    first, second = (0, 1) if (w // 6) % 2 == 0 else (1, 0)
+    for round_ in range(2):
+        if round_ == 0:
+            sim.acquire(a, 0, protect_i=first, sport=5000 + w % 50)
+            sim.acquire(b, 0, protect_i=second, dport=5100 + w % 50)
+        else:
+            for ep_, k_ in ((a, -1), (b, 0)):
+                est = [x for x in ep_.ctl.ike_sas if x.state.name == 'ESTABLISHED' and len(x.child_sas) > 1]
+                if est:
+                    sim.expire(ep_, bytes(est[0].child_sas[k_].inbound_spi), False, daddr=str(ep_.addrs[0]), proto=51 if w % 5 == 0 else 50)
+        guard = 0
+        while sim.net and guard < 40:
+            guard += 1
+            sim.case['actions'].append(('deliver', len(sim.net)))
+            sim.deliver(rng.randrange(len(sim.net)))
+    sim.settle()
+    shadow.mirror_check(ck, sim, a, b, prefix='crossing-two-groups:', require_equal_sets=False)
+    ck.count('crossing2.walks')
+    ck.nontrivial(('crossing2', g1, g2, first, w))
+
+
 def run_lossy(ck, w, seed):
     """Negotiations that only complete after loss, duplication and retransmission still install the RFC-derived keys on both sides."""
     rng = ck.rng('lossy', w)
@@ -486,6 +530,54 @@ def run_answer_overtaken(ck, w, seed):
     shadow.mirror_check(ck, sim, sc.a, sc.b, prefix=f'overtaken:{ka}-then-{kb}:', require_equal_sets=True)
 
 
+def run_overlapping_entries(ck, w, seed):
+    """Connections with SEVERAL protect entries that overlap (a narrow one - tcp/443 - and a wide one for the same networks, in either order, at one end or at both):
+    CHILD_SAs are created for the wide and the narrow entry from either end and then rekeyed from either end. Whatever the responder's scan of its entries picks, both
+    kernels end up with mirror images: the selectors a response announces are the ones its sender installed."""
+    import copy as _copy
+    order_b = ('narrow-first', 'wide-first')[w % 2]
+    order_a = ('one-wide-entry', 'wide-first', 'narrow-first')[(w // 2) % 3]
+    starter, rekeyer = 'AB'[(w // 6) % 2], 'AB'[(w // 12) % 2]
+    which = ('wide', 'narrow')[(w // 24) % 2]
+    ca, cb = S.pair_conf(mode='tunnel', ip_proto='any', a_port=0, b_port=0, a_subnet='10.1.0.0/16', b_subnet='10.2.0.0/16', dpd=600, lifetime=3600)
+
+    def entries(conn, order, my_port_side):
+        wide = conn['protect'][0]
+        narrow = _copy.deepcopy(wide)
+        narrow.update(ip_proto='tcp', index=wide['index'] + 10)
+        narrow['peer_port' if my_port_side == 'peer' else 'my_port'] = 443
+        conn['protect'] = {'one-wide-entry': [wide], 'wide-first': [wide, narrow], 'narrow-first': [narrow, wide]}[order]
+    entries(ca['conn'], order_a, 'peer')        # A talks to port 443 at B
+    entries(cb['conn'], order_b, 'my')
+    sim = S.Sim(seed + w)
+    a, b = sim.add('A', [S.A4], ca), sim.add('B', [S.B4], cb)
+    sim.case = {'family': 'overlapping-protect-entries', 'entries_of_A': order_a, 'entries_of_B': order_b, 'created_by': starter, 'rekeyed_by': rekeyer, 'child_sa_of_the_entry': which, 'actions': []}
+    ep = {'A': a, 'B': b}
+    st = ep[starter]
+    prot = list(st.conf.ike_configurations.values())[0].protect
+    idx = next((k for k, pc in enumerate(prot) if (int(pc.my_ts.ip_proto) == 6) == (which == 'narrow')), None)
+    if idx is None:
+        return
+    kw = dict(saddr='10.1.0.7' if starter == 'A' else '10.2.0.9', daddr='10.2.0.9' if starter == 'A' else '10.1.0.7')
+    if which == 'narrow':
+        kw.update(dport=443) if starter == 'A' else kw.update(sport=443)
+    sim.acquire(st, 0, protect_i=idx, **kw)
+    sim.drain()
+    for round_ in range(2):
+        rk = ep[rekeyer if round_ == 0 else ('B' if rekeyer == 'A' else 'A')]
+        est = [x for x in rk.ctl.ike_sas if x.state.name == 'ESTABLISHED' and x.child_sas]
+        if not est:
+            break
+        sim.expire(rk, bytes(est[0].child_sas[-1].inbound_spi), False, daddr=str(rk.addrs[0]))
+        sim.drain()
+    sim.settle()
+    ck.count('overlapping.runs')
+    if a.kernel.sad and b.kernel.sad:
+        ck.count('overlapping.runs_ending_with_sas_at_both_ends')
+    ck.nontrivial(('overlapping', order_a, order_b, starter, rekeyer, which))
+    shadow.mirror_check(ck, sim, a, b, prefix='overlapping-entries:', require_equal_sets=True)
+
+
 def run(ck):
     for w in range(72 if not ck.thorough() else 1440):
         if ck.mine(w):
@@ -493,6 +585,9 @@ def run(ck):
     for w in range(48 if not ck.thorough() else 960):
         if ck.mine(w):
             run_refusal(ck, w, ck.seed * 1000003 + 8807)
+    for w in range(48 if not ck.thorough() else 960):
+        if ck.mine(w + 6):
+            run_overlapping_entries(ck, w, ck.seed * 1000003 + 8893)
     for w in range(4 * len(OVERTAKEN) if not ck.thorough() else 80 * len(OVERTAKEN)):
         if ck.mine(w + 5):
             run_answer_overtaken(ck, w, ck.seed * 1000003 + 8861)
@@ -516,6 +611,9 @@ def run(ck):
     for w in range(nx):
         if ck.mine(w):
             run_crossing(ck, w, ck.seed * 1000003 + 4409)
+    for w in range(24 if not ck.thorough() else 480):
+        if ck.mine(w + 1):
+            run_crossing_two_groups(ck, w, ck.seed * 1000003 + 4421)
     for w in range(60 if not ck.thorough() else 6000):
         if ck.mine(w):
             run_lossy(ck, w, ck.seed * 1000003 + 5501)
@@ -552,6 +650,7 @@ def verdict(ck):
     ck.floor('CHILD_SA requests of an independent peer during which a NEWSA was refused after the answer to a DELSA could not be read', c['peer_refusal.runs_with_a_refused_newsa_after_an_unread_ack'], 30)
     ck.floor('answers overtaken by a request the peer started right after answering (kinds x role x reordered / retransmitted)', len(ck.sets['overtaken.kinds']), 50)
     ck.floor('... ending with SAs at both ends, SADs compared', c['overtaken.runs_ending_with_sas_at_both_ends'], 30)
+    ck.floor('histories over connections with overlapping protect entries that ended with SAs at both ends, SADs compared', c['overlapping.runs_ending_with_sas_at_both_ends'], 30)
     ck.floor('runs in which the kernel of one side refused a NEWSA, SADs compared afterwards', c['refusal.runs_with_a_refused_newsa'], 30)
     ck.floor('crossing-exchange walks', c['crossing.walks'], 100)
     ck.floor('lossy walks', c['lossy.walks'], 40)
